@@ -15,6 +15,7 @@ RULE = (
     "requestor receiving a C-STORE sub-operation during its own C-GET; x enumerated over 0..255 in the thorough tier and over "
     "accepted/rejected/never-proposed/even/boundary IDs in the quick tier; non-trivial = x is not an accepted context ID; "
     "distinct = distinct (request type, role, x)"
+    " In a further family the command set travels under the unaccepted ID while the data-set PDVs use the accepted context of that SOP class."
 )
 STUBS = ["scripted RawPeer (the misbehaving peer)"]
 EXHAUSTIVE = {"thorough": True, "quick": False}
